@@ -27,6 +27,8 @@ PROP = {  # commit subject fragment -> (property, id)
  "Entry::key of an occupied entry": ("C15", "F7"),
  "IntoIter::as_slice panics": ("C15", "F9"),
  "left positioned beyond it": ("C01", "F28"),
+ "from_value cannot produce a Value": ("C19", "F29"),
+ "tuple variant without fields": ("C19", "F30"),
 }
 KNOWN = []
 out = []
